@@ -230,9 +230,10 @@ class RefDecoder:
         L = self.L
         s = L.struct(tname)
         flds = [list(f) for f in s["fields"]]
+        if enc and (not flds or not flds[0][1].startswith("TPM2B")):
+            # nothing can be encrypted without a leading TPM2B: the area is decoded as it is
+            enc = False
         if enc:
-            if not flds or not flds[0][1].startswith("TPM2B"):
-                self.undefined("encryption requested for a parameter area without a leading TPM2B")
             flds[0][1] = "TPM2B_ENCRYPTED_PARAM"
         self.struct_event(path, tname + (ENC if enc else ""))
         selectors = s.get("selectors", {})
@@ -381,8 +382,13 @@ class RefDecoder:
                 attrs = self._sized_area(
                     child(path, "authorizationArea"), self._ftype("Response", "authorizationArea"), rr, start
                 )
-                if any(a & ATTR_ENCRYPT for a in attrs) != bool(enc):
-                    self.undefined("session attributes contradict the expected response encryption")
+                actual = any(a & ATTR_ENCRYPT for a in attrs)
+                if actual != bool(enc):
+                    # session attributes contradict the expected response encryption: a constraint error of its own
+                    self._stop(
+                        [{"kind": "encmismatch", "expected": bool(enc), "actual": actual, "remaining": self._rest()}],
+                        min_events=len(self.res.events),
+                    )
         self.close_region(rr)
 
     def stream(self, path):
